@@ -472,8 +472,41 @@ static void gen_script (GenCtx &g, J &ops, const Fmt &f, int ch, int rate, int T
 	ops.push (mkop ("close")) ;
 }
 
+// Systematic part of C19 (thorough tier, every fourth plan): for a pair of short scripts (open-write-close-open-read-close, the same
+// codec in both) ALL 924 ways of merging their 6 + 6 calls are run, one merge per plan; the pair changes every 924 enumerated plans.
+static J gen_c19_merges (uint64_t seed, uint64_t idx, uint64_t e)
+{	const std::vector<Fmt> &fmts = all_formats () ;
+	J plan = plan_skeleton ("C19", seed, idx) ;
+	uint64_t pair = e / 924, m = e % 924 ;
+	GenCtx g (sub_seed (seed, "C19pair", pair)) ;
+	const Fmt &f = fmts [(pair * 37) % fmts.size ()] ;
+	J &cfg = plan ["cfg"] ; cfg ["fmt"] = f.name ; cfg ["route"] = "mixed" ; cfg ["all_merges"] = 1 ;
+	for (int t = 0 ; t < 2 ; t++)
+	{	int rate = g.pick_rate (f, false) ; int ch = g.pick_channels (f, rate) ; if (ch > 2) ch = valid_channels (f, 2, rate) ? 2 : 1 ;
+		int T = (int) g.rng.below (4) ; int B = block_frames (f, ch, rate) ;
+		std::string file = "t" + std::to_string (t) + ".dat" ;
+		J ops = J::arr () ;
+		J o = mkop ("open") ; o ["mode"] = "w" ; o ["fmt"] = f.name ; o ["ch"] = ch ; o ["sr"] = rate ; o ["file"] = file ; o ["route"] = needs_path_route (f) ? "path" : (t ? "vio" : "fd") ;
+		DataDesc d ; d.cls = "noise" ; d.stream = (int64_t) g.rng.below (1000) ; o ["data"] = data_desc_to (d) ; ops.push (o) ;
+		{ J w = mkop ("write") ; w ["T"] = stype_name (T) ; w ["fr"] = 1 ; w ["n"] = (long long) g.pick_frames (B, ch, (is_alac (f) ? 5000 : 1500) / ch + 2) ; ops.push (w) ; }
+		ops.push (mkop ("close")) ;
+		J o2 = mkop ("open") ; o2 ["mode"] = "r" ; o2 ["fmt"] = f.name ; o2 ["ch"] = ch ; o2 ["sr"] = rate ; o2 ["file"] = file ; ops.push (o2) ;
+		{ J r = mkop ("read") ; r ["T"] = stype_name (T) ; r ["fr"] = 1 ; r ["n"] = (long long) g.pick_frames (B, ch, -1) ; ops.push (r) ; }
+		ops.push (mkop ("close")) ;
+		J task = J::obj () ; task ["ops"] = ops ; plan ["tasks"].push (task) ;
+	}
+	// merge number m of C(12, 6): positions of task 0's calls by the combinatorial number system
+	auto C = [] (int n, int k) { if (k < 0 || k > n) return (uint64_t) 0 ; uint64_t r = 1 ; for (int i = 1 ; i <= k ; i++) r = r * (uint64_t) (n - k + i) / (uint64_t) i ; return r ; } ;
+	std::vector<int> who (12, 1) ;
+	{ uint64_t rest = m ; int k = 6 ; for (int pos = 11 ; pos >= 0 && k > 0 ; pos--) { uint64_t c = C (pos, k) ; if (rest >= c) { who [(size_t) pos] = 0 ; rest -= c ; k -- ; } } }
+	J sched = J::arr () ; for (int w : who) sched.push ((long long) w) ;
+	plan ["sched"] = sched ;
+	return plan ;
+}
+
 static J gen_c19 (uint64_t seed, uint64_t idx)
 {	const std::vector<Fmt> &fmts = all_formats () ;
+	if (g_thorough && idx % 4 == 0) return gen_c19_merges (seed, idx, idx / 4) ;
 	J plan = plan_skeleton ("C19", seed, idx) ;
 	GenCtx g (sub_seed (seed, "C19", idx)) ;
 	int ntasks = (int) g.rng.pick<int> ({ 2, 2, 2, 3, 3, 4, 6, 8 }) ;
@@ -562,6 +595,7 @@ static Verdict check_c19 (const J &plan)
 	note_current_plan (J ()) ;
 	v.nontrivial = nt >= 2 && alternations >= 2 ;
 	v.probes ["schedule_alternations"] += (uint64_t) alternations ;
+	if (plan.at ("cfg").geti ("all_merges", 0)) { v.probes ["systematic_merges"] ++ ; v.nontrivial = true ; }
 	return v ;
 }
 
